@@ -19,7 +19,7 @@ EXTENDS Integers, Sequences, FiniteSets, SequencesExt, Json, IOUtils, TLC
 Traces == JsonDeserialize(IOEnv.TRACE_FILE)
 VARIABLES tid, l, st, cnt
 vars == <<tid, l, st, cnt>>
-Clauses == {"C16_Order", "C16_Sync", "C16_Error", "C16_Returns", "C16_Disconnect", "C16_Loss", "H_Device"}
+Clauses == {"C16_Order", "C16_Sync", "C16_Error", "C16_Alarm", "C16_Returns", "C16_Disconnect", "C16_Loss", "H_Device"}
 
 Lower(b) == IF b >= 65 /\ b <= 90 THEN b + 32 ELSE b
 StartsWith(t, p) == Len(t) >= Len(p) /\ \A i \in DOMAIN p : Lower(t[i]) = p[i]
@@ -38,13 +38,15 @@ Holds(c, e) ==
     [] c = "C16_Sync" ->
          (e.k = "ret" /\ e.res = "ok" /\ ~st.lost) => Len(st.acks) >= e.s                     \* its own acknowledgement was handed over before
     [] c = "C16_Error" ->
-         (e.k = "ret" /\ Len(st.acks) >= e.s) => ((e.res = "DeviceError") <=> IsError(st.acks[e.s]))
+         (e.k = "ret" /\ Len(st.acks) >= e.s) => ((e.res = "DeviceError") <=> (IsError(st.acks[e.s]) \/ st.alarm))
+    \* an error / alarm line the device says while NO statement is outstanding is raised by the next write()
+    [] c = "C16_Alarm" -> (e.k = "ret" /\ st.alarm /\ ~st.lost) => e.res # "ok"
     [] c = "C16_Returns" -> e.k # "stuck"
     [] c = "C16_Disconnect" ->
          e.k = "disc_ret" => (~e.alive /\ st.ntx = Len(st.calls) /\ Len(st.acks) = Len(st.calls))
     \* connection loss: the write() in flight when the link drops does not return normally (it raises), and it does return
     [] c = "C16_Loss" -> (e.k = "ret" /\ st.lost) => e.res # "ok"
-    [] c = "H_Device" -> (e.k = "rel" /\ IsAck(e.text)) => st.owed > 0
+    [] c = "H_Device" -> (e.k = "rel" /\ IsAck(e.text) /\ ~(IsError(e.text) /\ st.q = <<>>)) => st.owed > 0
 Ante(c, e) ==
   CASE c = "C16_Order" -> e.k = "tx" /\ ~IsStartup(e.text)
     [] c = "C16_Sync" -> e.k = "ret" /\ e.res = "ok"
@@ -52,6 +54,7 @@ Ante(c, e) ==
     [] c = "C16_Disconnect" -> e.k = "disc_ret"
     [] c = "H_Device" -> e.k = "rel"
     [] c = "C16_Loss" -> e.k = "ret" /\ st.lost
+    [] c = "C16_Alarm" -> e.k = "ret" /\ st.alarm /\ ~st.lost
     [] OTHER -> TRUE
 
 SigOf(c, e) ==
@@ -67,12 +70,14 @@ NextSt(e) ==
            THEN IF Head(st.q) = "stmt"
                   THEN [st EXCEPT !.acks = Append(st.acks, e.text), !.owed = st.owed - 1, !.q = Tail(st.q)]
                   ELSE [st EXCEPT !.owed = st.owed - 1, !.q = Tail(st.q), !.lateHs = st.lateHs \/ Len(st.calls) >= 1]
+           ELSE IF IsError(e.text) /\ st.q = <<>> THEN [st EXCEPT !.alarm = TRUE]       \* unsolicited: nothing is outstanding
            ELSE st
+    [] e.k = "ret" -> [st EXCEPT !.alarm = FALSE]
     [] OTHER -> st
 
 Init ==
   /\ tid \in 1..Len(Traces) /\ l = 1
-  /\ st = [calls |-> <<>>, ntx |-> 0, acks |-> <<>>, owed |-> 0, q |-> <<>>, lateHs |-> FALSE, lost |-> FALSE]
+  /\ st = [calls |-> <<>>, ntx |-> 0, acks |-> <<>>, owed |-> 0, q |-> <<>>, lateHs |-> FALSE, lost |-> FALSE, alarm |-> FALSE]
   /\ cnt = [c \in Clauses |-> 0]
 Step ==
   /\ l <= Len(Traces[tid].ev)
